@@ -146,6 +146,7 @@ type ImgSpec struct {
 	Resize  bool   `json:"resize,omitempty"` // nearest-neighbour resample of the symbol to W x H
 	Rot     int    `json:"rot,omitempty"`    // quarter turns
 	Paint   bool   `json:"paint,omitempty"`  // a black rectangle painted over part of the symbol
+	Mirror  bool   `json:"mirror,omitempty"` // symbol transposed (mirrored along the diagonal)
 	Global  bool   `json:"global_binarizer,omitempty"`
 }
 
@@ -225,6 +226,9 @@ func pixels(sp ImgSpec) (w, h int, px []byte) {
 	if strings.HasPrefix(sp.Kind, "symbol:") {
 		sym = symbolMatrix(sp.Kind[7:], rng)
 		if sym != nil {
+			if sp.Mirror {
+				sym = imgx.Transpose(sym)
+			}
 			sym = imgx.Rotate(sym, sp.Rot)
 			if !sp.Resize {
 				w, h = sym.GetWidth(), sym.GetHeight()
@@ -768,6 +772,13 @@ func genImg(t *rapid.T, prefer string) ImgSpec {
 		}
 		sp.Kind = "symbol:" + k
 		sp.Rot = rapid.SampledFrom([]int{0, 0, 0, 1, 2, 3}).Draw(t, "rot")
+		sp.Mirror = rapid.IntRange(0, 4).Draw(t, "mirror") == 0
+		if sp.Mirror && rapid.Bool().Draw(t, "cleanmirror") {
+			// a clean mirrored symbol (the mirrored second pass of the decoder must succeed)
+			sp.Rot = 0
+			sp.Global = rapid.Bool().Draw(t, "global0")
+			return sp
+		}
 		switch rapid.IntRange(0, 6).Draw(t, "mut") {
 		case 0:
 		case 1:
@@ -970,6 +981,9 @@ func TestCheck(t *testing.T) {
 			c.RapidIdx(sub, ri, c.N(110, 1500), 0, func(t *rapid.T) {
 				img := genImg(t, preferredSymbol(re.name))
 				cs := Case{Family: "image", Reader: re.name, Img: &img, Hints: genHints(t)}
+				if img.Mirror && rapid.Bool().Draw(t, "puremirror") {
+					cs.Hints.Pure = true
+				}
 				raw, _ := json.Marshal(cs)
 				lastOutcome = "skipped"
 				err := c.Eval("decode_total", cs)
